@@ -157,6 +157,8 @@ def run(ctx, rep) -> None:
                       e.site[0], e.site[1], disc=f"{parts[-1]}:{e.site[1]}")
     rep.floor("store sites inside retried closures", n_sites, 15)
 
+    _r3_dataflow(ctx, rep)
+
     # ---- R4 no swallow ------------------------------------------------------------------------------
     _r4(ctx, rep)
 
@@ -183,6 +185,62 @@ SCOPE = ("stabilize.handlers", "stabilize.persistence.transaction", "stabilize.p
 
 def _in_scope(f) -> bool:
     return any(f.module.name == p or f.module.name.startswith(p + ".") for p in SCOPE)
+
+
+def _r3_dataflow(ctx, rep) -> None:
+    """Read-modify-write on a freshly re-read stage must READ from that fresh object too: a value computed from another
+    (older) copy of the same stage and stored under the fresh version overwrites what other writers committed in between."""
+    prog = ctx.prog
+    n = 0
+    for f in prog.all_functions():
+        if not f.module.name.startswith("stabilize.handlers"):
+            continue
+        fresh_vars: dict[str, ast.AST] = {}
+        for a in ast.walk(f.node):
+            if isinstance(a, ast.Assign) and isinstance(a.targets[0], ast.Name) and isinstance(a.value, ast.Call) and norm(a.value.func).endswith(("retrieve_stage",)):
+                fresh_vars[a.targets[0].id] = a
+        if not fresh_vars:
+            continue
+        defs: dict[str, list] = {}
+        for a in ast.walk(f.node):
+            if isinstance(a, ast.Assign) and isinstance(a.targets[0], ast.Name):
+                defs.setdefault(a.targets[0].id, []).append(a)
+        for a in ast.walk(f.node):
+            if not (isinstance(a, ast.Assign) and isinstance(a.targets[0], ast.Subscript)):
+                continue
+            tgt = a.targets[0]
+            if not (isinstance(tgt.value, ast.Attribute) and tgt.value.attr in ("context", "outputs") and isinstance(tgt.value.value, ast.Name) and tgt.value.value.id in fresh_vars):
+                continue
+            fv = tgt.value.value.id
+            key = norm(tgt.slice)
+            # where does the written value come from?
+            srcs = [a.value]
+            if isinstance(a.value, ast.Name):
+                cands = [d for d in defs.get(a.value.id, []) if d.lineno < a.lineno]
+                # nearest preceding definition in the same function
+                if cands:
+                    srcs = [max(cands, key=lambda d: d.lineno).value]
+            for sv in srcs:
+                reads = [x for x in ast.walk(sv) if isinstance(x, ast.Call) and isinstance(x.func, ast.Attribute) and x.func.attr == "get" and isinstance(x.func.value, ast.Attribute)
+                         and x.func.value.attr in ("context", "outputs") and x.args and norm(x.args[0]) == key]
+                reads += [x for x in ast.walk(sv) if isinstance(x, ast.Subscript) and isinstance(x.value, ast.Attribute) and x.value.attr in ("context", "outputs") and norm(x.slice) == key]
+                for r_ in reads:
+                    base = r_.func.value.value if isinstance(r_, ast.Call) else r_.value.value
+                    n += 1
+                    ok = isinstance(base, ast.Name) and base.id == fv
+                    rep.check(ok, "C07.R3", f"{f.qualname}: {fv}.{tgt.value.attr}[{key}] is computed from {fv}",
+                              f"read-modify-write of {key}: read from `{norm(base)}`, written to the freshly read `{fv}`" + ("" if ok else " - the stale copy's value overwrites commits made since it was read"),
+                              f.file, a.lineno, disc=f"{f.qualname}:{key}:{norm(base)}")
+    rep.floor("read-modify-write sites on freshly read stages", n, 2)
+    # sibling agreement: the DISCRIMINATOR and N_OF_M join-tracking branches are the same algorithm
+    sl = prog.func("stabilize.handlers.complete_stage.split_logic", "CompleteStagesSplitMixin._update_join_tracking")
+    chains = [x for x in ast.walk(sl.node) if isinstance(x, ast.If) and "downstream.join_type == JoinType.DISCRIMINATOR" in norm(x.test)]
+    if chains and len(chains[0].orelse) == 1 and isinstance(chains[0].orelse[0], ast.If):
+        a_, b_ = chains[0].body, chains[0].orelse[0].body
+        ta = " ".join(norm(x) for x in a_)
+        tb = " ".join(norm(x) for x in b_)
+        rep.check(ta == tb, "C07.R3", "join-tracking siblings agree", "the DISCRIMINATOR and N_OF_M branches of _update_join_tracking are the same read-modify-write" if ta == tb else "the two sibling branches differ: one of them deviates from the fresh read-modify-write protocol",
+                  sl.file, chains[0].orelse[0].lineno, disc="siblings")
 
 
 def _may_cas(prog) -> set:
